@@ -565,7 +565,7 @@ def run_prologue(st):
         st.outcomes[("prologue", c["kind"], c["handler"], "ok" if r is None else "bad")] += 1
         if r is not None:
             st.violation(r[0], c, r[1], expected=r[2], observed=r[3])
-        if n % 61 == 1:
+        if n % 61 == 1 and c["kind"] != "nested-render":
             st.sample({"family": "prologue", "case": c, "files": P.build(c)[0]})
     st.extra["prologue_cases"] = n
 
